@@ -63,7 +63,8 @@ def run(ctx):
 
     # ---------------------------------------------------------------- child derivation
     childs = [m for m in F.fns.values() if m.impl_of and m.impl_of.get('self_head') and path_matches(m.impl_of['self_head'], 'trace::Context')
-              and m.impl_of.get('trait') is None and list(m.aggregates('trace::Context')) and m.argc == 1]
+              and m.impl_of.get('trait') is None and list(m.aggregates('trace::Context')) and m.argc == 1
+              and 'trace::Context' in m.local_ty(1)]      # derives a context from a context (its parameter is the parent)
     if len(childs) != 1:
         raise CannotDecide('child-context constructor: %d candidates' % len(childs))
     nc = childs[0]
